@@ -327,12 +327,18 @@ class BocWireWorld(World):
         ctx.evaluated(1)
         if record:
             ctx.op({'op': 'deliver', 'fault': fault, 'times': times})
-        ok, res = call(Cell.from_boc, damaged)
+        # the medium may carry the bag as text: the parser takes hex (either case) and base64 strings as well as bytes
+        import zlib
+        form = ('bytes', 'bytes', 'bytes', 'hex', 'HEX', 'b64')[zlib.crc32(damaged) % 6]
+        wire = damaged if form == 'bytes' else damaged.hex() if form == 'hex' else damaged.hex().upper() if form == 'HEX' else base64.b64encode(damaged).decode()
+        if form != 'bytes':
+            ctx.probe('bag-carried-as-text/' + form)
+        ok, res = call(Cell.from_boc, wire)
         for _ in range(times - 1):
             if ok:
                 break
             ctx.fault('duplicate')
-            ok, res = call(Cell.from_boc, damaged)
+            ok, res = call(Cell.from_boc, wire)
         self._times = times
         if kind == 'none':
             klass = self._freedom_class(f, roots)
@@ -458,7 +464,7 @@ class AddrWireWorld(World):
     def __init__(self, prop, tier):
         super().__init__(prop, tier)
         q = tier == 'quick'
-        self.legs = [('roundtrip', 256), ('substitution', 96 if q else 2500), ('crowd', 400 if q else 20000), ('checksum', 1200 if q else 60000)]
+        self.legs = [('roundtrip', 256), ('substitution', 96 if q else 2500), ('crowd', 400 if q else 20000), ('checksum', 1200 if q else 60000), ('deployed', 8 if q else 96)]
         self.budget = {'quick': 100, 'thorough': 1500}
 
     def get_legs(self):
@@ -472,6 +478,8 @@ class AddrWireWorld(World):
                 'the same account in several workchains) in seeded order and variants: every text must be the reference layout of its own address and parse back to it, whatever was rendered or parsed before. '
                 'Leg checksum: the last two bytes of the account id are solved (the CRC is linear) so that one variant\'s text carries a chosen checksum - 0000, ffff, one zero byte, single bits - '
                 'then round trip, relays to three other variants and every substitution in the four checksum characters and the first two. '
+                'Leg deployed: the receiver is a fresh interpreter started the way services are started (-O, -OO, -I, -W error, -S, -X dev in turn): the nine intact texts parse to the address and all 3 024 '
+                'substitutions of one variant are refused there too. '
                 'evaluations = parses; non-trivial = every run (each delivers faults or covers a distinct workchain); distinct = distinct (workchain class, variant set).')
 
     def assumptions(self):
@@ -486,6 +494,9 @@ class AddrWireWorld(World):
             # the account id's last two bytes are solved so that the friendly form of ONE variant carries a chosen checksum
             return {'wc': rng.choice([-1, 0, 0, -128, 127, rng.randint(-128, 127)]), 'acc': bytes(rng.getrandbits(8) for _ in range(32)).hex(), 'leg': leg, 'variant': rng.randrange(8),
                     'target': rng.choice([0x0000, 0x0000, 0xFFFF, 0x0001, 0x8000, 0x0100, 0x00FF, 0xFF00, 0x0080, rng.getrandbits(8), rng.getrandbits(8) << 8, 0xFBFF, 0xFFEF])}
+        if leg == 'deployed':
+            return {'wc': rng.choice([-1, 0, 0, -128, 127, rng.randint(-128, 127)]), 'acc': bytes(rng.getrandbits(8) for _ in range(32)).hex(), 'leg': leg, 'variant': rng.randrange(8),
+                    'flags': self.DEPLOYMENTS[run_index % len(self.DEPLOYMENTS)]}
         if leg == 'crowd':
             return {'wc': rng.choice([-1, 0, 0, -127, 126, rng.randint(-127, 126)]), 'acc': (rng.choice([5, 2 ** 255, 2 ** 256 - 2 ** 62, rng.getrandbits(256) | 2 ** 70]) - 0).to_bytes(32, 'big').hex(), 'leg': leg,
                     'family': rng.choice(['diagonal', 'mersenne', 'bitflip', 'workchains', 'mixed']), 'irregular': rng.random() < 0.5}
@@ -546,6 +557,83 @@ class AddrWireWorld(World):
         finally:
             ctx.keep_history = False
 
+    # ---- deployed leg: the receiving process is started the way services are started ----
+    DEPLOYMENTS = [['-O'], ['-OO'], ['-O', '-X', 'dev'], ['-OO', '-W', 'error'], ['-I'], ['-X', 'utf8', '-B'], ['-W', 'error'], ['-O', '-S']]
+
+    def _child_parse(self, flags, texts):
+        """Address(text) for every text in a fresh interpreter started with `flags`; per text None (refused) or (wc, account hex)."""
+        import json
+        import os
+        import subprocess
+        import sys
+        from detsim import lib as lib_mod
+        code = ('import sys, json\n'
+                'sys.path[:0] = %r\n'
+                'from pytoniq_core.boc.address import Address\n'
+                'out = []\n'
+                'for t in json.load(sys.stdin):\n'
+                '    try:\n'
+                '        a = Address(t)\n'
+                '        out.append([a.wc, a.hash_part.hex(), bool(a.is_bounceable), bool(a.is_test_only)])\n'
+                '    except Exception:\n'
+                '        out.append(None)\n'
+                'json.dump(out, sys.stdout)\n') % ([lib_mod.REPO] + [p for p in sys.path if 'site-packages' in p],)
+        env = dict(os.environ, PYTHONDONTWRITEBYTECODE='1', PYTHONHASHSEED='0')
+        p = subprocess.run([sys.executable] + list(flags) + ['-c', code], input=json.dumps(texts), capture_output=True, text=True, env=env, timeout=300)
+        if p.returncode != 0:
+            raise RuntimeError('child interpreter %r failed: %s' % (flags, p.stderr[-600:]))
+        return json.loads(p.stdout)
+
+    def run_deployed(self, ctx, ops=None):
+        """The receiver is not this process but a service started with the interpreter options deployments use (-O / -OO strip assert
+        statements and docstrings, -I isolates, -W error turns warnings into errors, ...).  Those are the operator's choice, not the
+        library's: every intact text parses to the address, every text with one substituted character is refused - there too."""
+        cfg = ctx.cfg
+        if ops is None:
+            aop = {'op': 'address', 'wc': cfg['wc'], 'acc': cfg['acc']}
+            dop = {'op': 'deploy', 'flags': cfg['flags']}
+            v = cfg['variant']
+            text = self._want(cfg['wc'], bytes.fromhex(cfg['acc']), v)
+            alph = B64_URL if VARIANTS[v][2] else B64_STD
+            subs = [{'op': 'substitute', 'variant': v, 'pos': pos, 'char': ch} for pos in range(48) for ch in alph if ch != text[pos]]
+            intact = [{'op': 'intact', 'variant': w} for w in ['raw'] + list(range(8))]
+        else:
+            aop = next((o for o in ops if o['op'] == 'address'), None)
+            dop = next((o for o in ops if o['op'] == 'deploy'), None)
+            if aop is None or dop is None:
+                return
+            subs = [o for o in ops if o['op'] == 'substitute' and 'variant' in o]
+            intact = [o for o in ops if o['op'] == 'intact']
+        wc, acc = aop['wc'], bytes.fromhex(aop['acc'])
+        ctx.op(aop)
+        ctx.op(dop)
+        ctx.fault('receiver-started-with-' + ''.join(dop['flags']).replace('-', ''))
+        ctx.tag(wc, ' '.join(dop['flags']))
+        texts = [self._want(wc, acc, o['variant']) for o in intact]
+        for o in subs:
+            t = self._want(wc, acc, o['variant'])
+            texts.append(t[:o['pos']] + o['char'] + t[o['pos'] + 1:])
+        res = self._child_parse(dop['flags'], texts)
+        ctx.evaluated(len(texts))
+        klass = 'interpreter' + ''.join(dop['flags'][:1])
+        for o, r in zip(intact, res):
+            if ops is not None:
+                ctx.op(o)
+            v = o['variant']
+            good = r is not None and r[0] == wc and r[1] == acc.hex() and (v == 'raw' or (r[2], r[3]) == VARIANTS[v][:2])
+            if not good:
+                self._fail(ctx, [aop, dop, o], 'roundtrip', 'Address(str)', klass, 'in an interpreter started with %s the intact text of form %s parsed to %r' % (' '.join(dop['flags']), v, r))
+                return
+        for o, r in zip(subs, res[len(intact):]):
+            ctx.fault('substitute')
+            if ops is not None:
+                ctx.op(o)
+            if r is not None:
+                where = 'tag' if o['pos'] < 2 else ('crc' if o['pos'] >= 45 else 'body')
+                self._fail(ctx, [aop, dop, o], 'typo-accepted', 'Address(str)', where + '/' + klass,
+                           'in an interpreter started with %s a friendly address with character %d replaced by %r was accepted (as wc=%r)' % (' '.join(dop['flags']), o['pos'], o['char'], r[0]))
+                return
+
     IRREGULAR = ['0:' + 'ab' * 33, '-1:' + 'cd' * 40, '0:' + 'ef' * 31, '5:' + '0' * 63, '0:', '127:' + 'ff' * 64]
 
     def _irregular(self, ctx, op):
@@ -572,6 +660,8 @@ class AddrWireWorld(World):
             self._pre = [pre]
         if cfg['leg'] == 'crowd':
             return self.run_crowd(ctx)
+        if cfg['leg'] == 'deployed':
+            return self.run_deployed(ctx)
         if cfg['leg'] == 'checksum':
             v = cfg['variant']
             b, t, u = VARIANTS[v]
@@ -640,6 +730,8 @@ class AddrWireWorld(World):
         ops = [o for o in ops if o['op'] != 'irregular']
         if any(o['op'] == 'member' for o in ops):
             return self.run_crowd(ctx, ops)
+        if any(o['op'] == 'deploy' for o in ops):
+            return self.run_deployed(ctx, ops)
         a = next((o for o in ops if o['op'] == 'address'), None)
         if a is None:
             return
